@@ -21,7 +21,7 @@ PROP = dict(
     rule="inputs: the 42 modelled integer compute_* methods in rotation (F1-F7), raw (BytesVec) and compressed (PcoVec) outputs and "
          "sources, 2-7 rounds per history of: truncate sources (35%), grow sources (85%), change a source version (12%), "
          "1-3 compute calls with cap in {1,2,3,7,64,inf} elements (first_per_index: inf only, a finite cap can loop forever) and "
-         "max_from = first changed index / below it / 0 / (15% of histories, debug builds) above it, write() (20%), "
+         "max_from = first changed index / below it / 0 / (15% of histories, debug builds) above it, write() (20%), hand-pushed values and user closures failing before the write (10% of the cases, see C19), "
          "flush+drop+re-import (20%), own-version change (2%); window parameters from {0,1,2,3,5,8,13,1000,usize::MAX}; F7 sources "
          "are generated jointly (consistent group layout, non-decreasing keys / item->group maps) and the first changed index of "
          "the five from_indexes/indirect methods is the first index at which the from-scratch outputs of the previous and the "
